@@ -227,4 +227,8 @@ SitesAnyEnzyme == pc = "prot" => \A i \in 1..Len(decoys) : SameSites(inp.recs[i]
 \* behaviour generation: one case per chosen input
 EmitCase == pc = "parse" => PrintT(<<"CASE", [i \in 1..Len(inp.recs) |-> inp.recs[i][2]], inp.enz, inp.reverse, inp.concat>>)
 GenOnly == pc \in {"pick", "pickrecs", "parse"}
+\* ---- liveness (checked by Decoys_live.cfg): under weak fairness of the next-state action every behaviour comes to rest
+\* in a state without successor -- the modelled procedure terminates for every input, schedule and fault inside the bounds
+FairSpec == Spec /\ WF_vars(Next)
+Halts == <>[](~ENABLED Next)
 =============================================================================
